@@ -346,6 +346,46 @@ def traceLine (toks : List String) : String :=
                 | _ => fail "bad final record"
     | _, _ => fail "missing target/bodyend (generation aborted?)"
 
+/-! ### S11 opcode sequences through live objects -/
+
+def parseStep (t : String) : Option (Op × Arg) :=
+  match t.splitOn ":" with
+  | opHex :: argHex :: _ =>
+    match (unhex opHex).head?.bind Lex.ofCode? with
+    | some op => some (op, argOfBytes op (if argHex = "-" then none else some (unhex argHex)))
+    | none => none
+  | _ => none
+
+def seqLine (toks : List String) : String :=
+  let p := kvNat toks "P"
+  let c : Cfg := { version := p, allowExt := true, allowBuf := true }
+  let preS := kvD toks "prefix" "-"
+  let pre := if preS = "-" then [] else preS.splitOn ","
+  let fail (w : String) : String := s!"seq MISMATCH P={p} prefix={preS} :: {san w}"
+  match pre.mapM parseStep with
+  | none => fail "bad prefix"
+  | some steps =>
+    let (s, o) := steps.foldl (fun (acc : State × Obj.OS) (st : Op × Arg) =>
+      (process p acc.1 st.1 st.2, Obj.process p acc.2 st.1 st.2)) (({ protoEmitted := p ≥ 2 } : State), ({} : Obj.OS))
+    if Obj.projStack o != s.stack || Obj.projMemo o != s.memo then fail "object model and kind model disagree after the prefix"
+    else
+      let mv := hexOf ((validOps (Gen.table p) c s).map Gen.asU8)
+      let iv := kvD toks "valid" "-"
+      if mv != (if iv = "-" then "" else iv) then fail s!"valid_opcodes: model={mv} impl={iv}"
+      else
+        let chS := kvD toks "children" "-"
+        let ch := if chS = "-" then [] else chS.splitOn ";"
+        let errs := ch.foldl (fun (errs : List String) (t : String) =>
+          if errs.length ≥ 3 then errs else
+          match parseStep t, (t.splitOn ":")[2]? with
+          | some (op, a), some d =>
+            let o' := Obj.process p o op a
+            let md := hex16 (fnv (Obj.canon o').toUTF8.toList)
+            if md == d then errs
+            else errs ++ [s!"{op.name}: live object graph after it: impl-digest={d} model={((Obj.canon o').take 300).toString}"]
+          | _, _ => errs ++ ["bad child " ++ t]) []
+        if errs.isEmpty then s!"seq ok children={ch.length}" else fail (" | ".intercalate errs)
+
 /-! ### S3 gen-exact, S4 mutators, S5 entropy adapters -/
 
 def parseMods (content : String) : List (List UInt8 × List UInt8) :=
@@ -727,6 +767,7 @@ def handle (mods : List (List UInt8 × List UInt8)) (line : String) : Option Str
   | some "oracle" => some (oracleLine toks)
   | some "probe" => some (probeLine toks)
   | some "trace" => some (traceLine toks)
+  | some "seq" => some (seqLine toks)
   | some "gen" => some (genLine mods toks)
   | some "src" => some (srcLine toks)
   | some "mut" => some (mutLine toks)
